@@ -25,7 +25,7 @@ ASSUMPTIONS = [
     "library calls in the frozen no-raise table of sa/effects.py do not raise (logging, loop.time/create_task, set/deque ops, StreamWriter.write/close/is_closing)",
     "asyncio.open_connection / drain / wait_closed raise only OSError family; CancelledError is outside the lattice",
 ]
-FLOORS = {"C07.R1": 5, "C07.R2": 7, "C07.R3": 3, "C07.R4": 5, "C07.R5": 2, "C07.R6": 3, "C07.R7": 6, "C07.R8": 3, "C07.R9": 4, "C07.R10": 1, "C07.R11": 5}
+FLOORS = {"C07.R1": 5, "C07.R2": 7, "C07.R3": 3, "C07.R4": 5, "C07.R5": 2, "C07.R6": 3, "C07.R7": 6, "C07.R8": 3, "C07.R9": 4, "C07.R10": 1, "C07.R11": 5, "C07.R12": 1}
 
 
 def run(ctx):
@@ -42,6 +42,10 @@ def run(ctx):
     from . import c01
     from .common import reuse
 
+    from . import c03
+
+    reuse(ctx, "C07.R12", [c03.r2], "a header whose length fields contradict each other is refused (and the connection reset) instead of making the read loop wait for bytes that never come (C03.R2)",
+          keep=lambda o: "rejects" in o.construct or o.verdict != "HOLDS")
     reuse(ctx, "C07.R10", [c01.r1], "a message is taken out of the queue before the attempt to write it, so one that cannot be encoded is gone when its error is handled and cannot block every later command (C01.R1)",
           keep=lambda o: "_drain_message_queue" in o.construct or o.verdict != "HOLDS")
 
@@ -186,7 +190,11 @@ def r3(ctx):
     for n, c in retries:
         d = next((k.value for k in c.keywords if k.arg == "delay"), c.args[1] if len(c.args) > 1 else None)
         dv = ctx.repo.try_fold(m, d) if d is not None else None
-        ctx.check(isinstance(dv, (int, float)) and not isinstance(dv, bool) and 0 < dv <= 10, R, "_connect:retry-delay", m, c, "retry delay is a positive constant of a few seconds (2 s)", f"{unparse(d) if d is not None else 'no delay'} = {dv!r}")
+        ctx.check(isinstance(dv, (int, float)) and not isinstance(dv, bool) and dv == 2.0, R, "_connect:retry-delay", m, c, "a failed attempt is retried after 2 s (the delay the property names; init()'s 5 s window relies on it)", f"{unparse(d) if d is not None else 'no delay'} = {dv!r}")
+    # the attempt itself is not put under a local timer: TimeoutError is an OSError, so a connect that takes longer than the timer
+    # would be abandoned and retried for ever although it would have succeeded
+    timers = [c for n, c in con.calls_pred(lambda d_: d_ in ("asyncio.wait_for", "asyncio.timeout", "asyncio.timeout_at"))]
+    ctx.check(not timers, R, "_connect:no-timer-around-the-attempt", m, (timers[0] if timers else con.node), "open_connection is awaited as it is (the operating system's connect timeout applies)", f"{norm_text(timers[0])[:70]}" if timers else "")
     # tests of is_connected evaluated after the attempt
     post_tests = [t for t in con.tests(lambda e: dotted(e) == "self.is_connected") if g.exists_path(on.id, t.id)]
     labels = NONEXC | {"exc"}
